@@ -28,6 +28,7 @@ def main():
     ver = Verifier(fe, db, int(os.environ.get("PYVC_TIMEOUT_MS", "10000")))
     for t in targets:
         t0 = time.time()
+        ver = Verifier(fe, ContractDB.for_target(os.path.join(here, "contracts"), t), int(os.environ.get("PYVC_TIMEOUT_MS", "10000")))
         rep = ver.verify_function(t)
         ver.discharge(rep)
         res = {}
